@@ -30,10 +30,11 @@ void Broker::emit_raw(int conn, const std::string& bytes, bool hostile) {
     // log packet(s)
     size_t off = 0;
     while (off < bytes.size()) {
-        WireEvt e; e.seq = int(wire.size()); e.conn = conn; e.c2b = false; e.t = vclock::now_ns(); e.raw_hostile = hostile;
+        WireEvt e; e.seq = int(wire.size()); e.conn = conn; e.c2b = false; e.t = vclock::now_ns(); e.raw_hostile = false;
+        ref::StructuralScope structural;   // what the broker itself emits is judged structurally (C19 interpretation note in DESIGN.md)
         auto r = ref::decode((const unsigned char*)bytes.data() + off, bytes.size() - off);
         if (r.st == ref::D_OK) { e.pkt = r.pkt; e.raw = bytes.substr(off, r.consumed); off += r.consumed; }
-        else { e.malformed = true; e.why = r.why; e.raw = bytes.substr(off); off = bytes.size(); }
+        else { e.malformed = true; e.raw_hostile = hostile; e.why = r.why; e.raw = bytes.substr(off); off = bytes.size(); }
         // completion of client->broker exchanges (Receive Maximum accounting happens when the ack is really sent)
         if (!e.malformed) {
             if (e.pkt.type == ref::PUBACK || e.pkt.type == ref::PUBCOMP) c.inflight.erase(e.pkt.pid);
@@ -72,7 +73,7 @@ void Broker::on_bytes(int conn) {
 
 void Broker::finish_handshake(int conn, const ref::Packet& p) {
     ConnState& c = cs[conn];
-    std::string cid = p.client_id; ref::Props props = cfg.connack_props;
+    std::string cid = p.client_id; ref::Props props = handshakes_ok < int(cfg.connack_props_script.size()) ? cfg.connack_props_script[handshakes_ok] : cfg.connack_props;
     if (cid.empty()) { cid = "auto-" + std::to_string(conn); props.push_back(ref::pstr(0x12, cid)); }
     c.client_id = cid;
     bool natural = sessions.count(cid) > 0 && !p.clean_start;
@@ -125,7 +126,18 @@ void Broker::handle(int conn, const ref::Packet& p, const std::string& raw) {
     if (p.type == ref::CONNECT) {
         if (c.got_connect) { violation("C10: second CONNECT on connection " + std::to_string(conn)); return; }
         c.got_connect = true; connects_seen++;
-        if (hostile_now) { emit_raw(conn, cfg.hostile.raw, true); if (!cfg.hostile.also_normal_reply) return; }
+        if (hostile_now) {
+            // bytes the strict reference decoder accepts as a successful CONNACK are a real handshake, whatever produced them
+            ref::StructuralScope structural;
+            auto hr = ref::decode(cfg.hostile.raw);
+            if (hr.st == ref::D_OK && hr.pkt.type == ref::CONNACK && hr.pkt.rc == 0) {
+                std::string cid = p.client_id.empty() ? "auto-" + std::to_string(conn) : p.client_id; c.client_id = cid;
+                if (!hr.pkt.session_present) sessions.erase(cid); Session& s = sessions[cid]; s.client_id = cid;
+                c.receive_maximum = 65535; for (auto& q : hr.pkt.props) if (q.id == 0x21) c.receive_maximum = int(q.num);
+                c.connack_sent = true; c.handshake_ok = true; c.connack_t = vclock::now_ns(); c.session_present_sent = hr.pkt.session_present; c.connack_props_sent = hr.pkt.props; handshakes_ok++;
+                if (c.receive_maximum == 0) starving_connack = true;   // Receive Maximum 0 is a Protocol Error of the broker: nothing can be sent on this connection
+            }
+            emit_raw(conn, cfg.hostile.raw, true); if (!cfg.hostile.also_normal_reply) return; }
         int v = next_hs_variant; next_hs_variant = HS_OK;
         uint8_t scripted_rc = connects_seen - 1 < int(cfg.connack_rc_script.size()) ? cfg.connack_rc_script[connects_seen - 1] : 0;
         if (v == HS_RC || scripted_rc) { ref::Packet ca; ca.type = ref::CONNACK; ca.rc = scripted_rc ? scripted_rc : 0x88; ca.has_rc = true; emit(conn, ca); close_conn(conn); return; }
